@@ -60,7 +60,17 @@ def convert_data_attributes(ns_attrs, attrs, namespaces) -> None:
             if '-' not in name:
                 continue
             prefix, name = name.split('-', 1)
-            ns_attrs[namespaces[prefix], name] = attr['value']
+            ns = namespaces.get(prefix)
+            if ns not in MacroProgram.DROP_NS:
+                # an ordinary data attribute such as data-x-y
+                continue
+            # the attribute is replaced by the statement: also forget
+            # the entry it was given when the tag was parsed, so that
+            # ``ns_attrs`` stays aligned with ``attrs``
+            for key in tuple(ns_attrs):
+                if key[1] == attr['name']:
+                    del ns_attrs[key]
+            ns_attrs[ns, name] = attr['value']
             attrs.pop(i - d)
             d += 1
 
